@@ -149,6 +149,30 @@ def _p15(ctx):
             e = x.agg_expr(nid, si)
             sinks.append(('initialisation loop bound', e[4][1], x.where_stmt(nid, si)))
     ctx.floor('P15', len(sinks), 6, 'capacity sinks in new_internal')
+    # the normalisation itself: 1, MAX_WRAP, or next_power_of_two of the *requested value itself*
+    gvw = ctx.fn1(r'^countedindex::get_valid_wrap$')
+    gg = ctx.graph(gvw)
+    xx = gg.x
+    r = gg.strip(gg.ev_local(gg.root_inst, 0))
+    alts = [r] if r[0] != 'phi' else [gg.strip(a) for a in r[1]]
+    req = ('param', gg.root_inst, 1)
+    bad = []
+    npot = 0
+    for a in alts:
+        if a[0] == 'c':
+            continue
+        if a[0] == 'call' and re.search(r'next_power_of_two$', gg.call_name(a[1]) or ''):
+            npot += 1
+            arg = gg.strip(gg.call_args(a[1])[0])
+            if arg == req:
+                continue
+            if arg[0] == 'call' and re.search(r'(cmp::max|Ord>?::max)$', gg.call_name(arg[1]) or ''):
+                continue
+            bad.append('next_power_of_two of a modified request')
+        else:
+            bad.append('result is not a constant or next_power_of_two(request)')
+    ctx.add('P15', 'T-FLOW', gvw, not bad and npot == 1, 'capacity normalisation = next_power_of_two(requested) (or the constants 1 / MAX_WRAP)' if not bad and npot == 1 else
+            'get_valid_wrap does not round the requested capacity itself up to a power of two (%s): N is not "requested rounded up"' % (bad or 'no next_power_of_two'), sub='normalise')
     for i, (what, e, where) in enumerate(sinks):
         ok = same(e)
         ctx.add('P15', 'T-FLOW', fn, ok, '%s uses the one normalised capacity' % what if ok else
